@@ -37,10 +37,18 @@ def run(rep):
     rep.assumptions = ["a 'corrupt' result is a truncated pickle made by the environment; partial files made by growers are the subject of C10/C11",
                        "a failing function raises ValueError on chosen settings, read from a side file so that it can be repaired without re-sowing"]
     acts = ["resow", "grow", "grow_set", "grow_missing", "fix_fn", "delete", "corrupt", "check_bad", "reload"]
-    runs = [dict(name="C08_hist", configs=configs(rep.tier), acts=acts, max_steps=8 if q else 12, mode="sim",
-                 num=1500 if q else 15000,
-                 need=["DoSow", "DoReSow", "GrowAny", "GrowSetAny", "DoGrowMissing", "DoFixFn", "DeleteAny", "CorruptAny",
-                       "DoCheckBad", "DoReload"])]
+    allc = configs(rep.tier)
+
+    def nbatches(c):
+        n = crop.n_of(c)
+        return n if c["bmode"] == "none" else (-(-n // c["bval"]) if c["bmode"] == "size" else min(n, c["bval"]))
+    small = [c for c in allc if nbatches(c) <= 4]
+    big = [c for c in allc if nbatches(c) > 4]
+    need = ["DoSow", "DoReSow", "GrowAny", "GrowSetAny", "DoGrowMissing", "DoFixFn", "DeleteAny", "CorruptAny", "DoCheckBad", "DoReload"]
+    # crops of up to 4 batches: all reachable states are model-checked; larger crops (up to 8 batches): simulated histories only
+    runs = [dict(name="C08_hist", configs=small, acts=acts, max_steps=8 if q else 12, mode="sim", num=1500 if q else 12000, need=need)]
+    if big:
+        runs.append(dict(name="C08_big", configs=big, acts=acts, max_steps=8 if q else 12, mode="sim", num=300 if q else 4000, check=False))
     crop.drive(rep, runs, claims=lambda tag: tag.startswith(CLAIMS_PREFIX))
     # code -> spec: the repository's own crop / farming tests, recorded by vx/pytest_vx.py, validated by CropTrace.tla
     from .. import croptrace
